@@ -113,6 +113,7 @@ class Path:
         self.outcome = outcome        # ('return', term) | ('raise', info) | ('fall',)
         self.env = env
         self.closures = closures
+        self.loop_steps = []
 
     def of(self, *kinds):
         return [e for e in self.events if e.kind in kinds]
@@ -221,7 +222,10 @@ class Summariser:
                 st.env.setdefault(k, v)
             # ordinals of a closure's own events must not collide with captured terms of the enclosing function
             st.counters["__base__"] = 100
+        self._steps = []
         results = self.block(fi.node.body, st)
+        steps = self._steps
+        self._steps = []
         paths = []
         for s, out in results:
             if out[0] == "normal":
@@ -229,6 +233,8 @@ class Summariser:
             elif out[0] in ("break", "continue"):
                 raise AnalysisError("stray %s in %s" % (out[0], fi.qual))
             paths.append(Path(s.events, out, s.env, s.closures))
+        for p_ in paths:
+            p_.loop_steps = steps      # [(loop id, events of a generic iteration that goes on to the next one, locals at its end)] of `while True` loops
         if len(paths) > PATH_BOUND:
             raise AnalysisError("path bound exceeded in %s (%d paths)" % (fi.qual, len(paths)))
         if bindings is None:
@@ -589,7 +595,13 @@ class Summariser:
             s.loops = tuple(x for x in s.loops if x != lid)
             if out[0] in ("normal", "continue"):
                 if N.is_const(c0) and c0[2]:
-                    continue   # `while True` never exits normally
+                    # `while True` never exits normally: the iteration that carries on is not the tail of any path; keep its events
+                    # (from the ITER marker on) for rules about what a non-final iteration does
+                    evs = list(s.events)
+                    start = max((i for i, e in enumerate(evs) if e.kind == "ITER" and e.a.get("lid") == lid), default=0)
+                    if hasattr(self, "_steps"):
+                        self._steps.append((lid, evs[start:], dict(s.env)))
+                    continue
                 c2 = self.expr(node.test, s)
                 self.emit(s, "ASSUME", {"cond": N.mk_not(c2)}, node)
                 self.emit(s, "LOOPEND", {"lid": lid, "how": "exhausted"}, node)
